@@ -170,7 +170,21 @@ def make_env(ns, uni, params, memo, defs, result_holder):
                 return d
             return depth(obj, frozenset())
         return 0
+    def ghost_rel(name, a, b):
+        if name == "desc":
+            seen, todo = set(), [a]
+            while todo:
+                x = todo.pop()
+                if x is b:
+                    return True
+                if id(x) in seen:
+                    continue
+                seen.add(id(x))
+                todo += list(getattr(x, "child_component_list", []))
+            return False
+        return False
     env.update({
+        "ghost_rel": ghost_rel,
         "ghost_int": ghost_int,
         "__tw": tw, "forall": forall, "exists": exists,
         "forall_int": lambda lo, hi, f: all(f(k) for k in range(lo, hi)),
